@@ -127,6 +127,7 @@ def run_prefix(T, prefix, strict, kw):
         r.kind, r.details = impl.norm_err(e)
         if isinstance(e, ns.err.ConstraintViolatedError) and e.bytes_remaining is not None:
             try:
+                str(e), repr(e)  # a user prints the diagnosis first; that must not change what the error carries
                 r.remaining = bytes(e.bytes_remaining)
             except Exception as e2:  # noqa: BLE001
                 r.remaining = "ESCAPE:" + type(e2).__name__
